@@ -257,6 +257,9 @@ func genPipeCase(r *vlib.R, emit func(string), dflt string) int {
 // genDSCase: D DS records × K same-tag KSKs, plain and anchored walk, caps around K and D·K.
 func genDSCase(r *vlib.R, emit func(string)) int {
 	D, K := r.Range(1, 5), r.Range(1, 12)
+	if r.Chance(1, 2) {
+		D = 1 // the genuine DS is then the first one walked
+	}
 	emit(fmt.Sprintf("ds new %d %d %d %s %s", r.Intn(200), D, K, vlib.Pick(r, []string{"present", "present", "absent"}),
 		vlib.Pick(r, []string{"present", "present", "present", "absent"})))
 	fx := curDS
@@ -463,13 +466,14 @@ func gen(r *vlib.R, n int, tier string, emit func(string)) {
 		}
 	}
 	// more KSKs share the DS's key tag than one DS may cost, the genuine one early in the validator's order
-	for _, seed := range []int{3, 5, 8} {
-		emit(fmt.Sprintf("ds new %d 2 7 present present", seed))
+	for _, sd := range [][2]int{{3, 1}, {5, 1}, {8, 2}, {13, 1}} {
+		emit(fmt.Sprintf("ds new %d %d 7 present present", sd[0], sd[1]))
 		count++
-		if fx := curDS; fx != nil && fx.k == 7 {
+		if fx := curDS; fx != nil && fx.k == 7 && fx.d == sd[1] {
 			for _, a := range []string{"t", "f"} {
-				emitc(fmt.Sprintf("ds verify enforce 4 64 %s %s %s 2 7", a, posStr(fx.dpos), posStr(fx.kpos)))
-				emitc(fmt.Sprintf("ds verify enforce %d 64 %s %s %s 2 7", fx.kpos+1, a, posStr(fx.dpos), posStr(fx.kpos)))
+				emitc(fmt.Sprintf("ds verify enforce 4 64 %s %s %s %d 7", a, posStr(fx.dpos), posStr(fx.kpos), sd[1]))
+				emitc(fmt.Sprintf("ds verify enforce %d 64 %s %s %s %d 7", fx.kpos+1, a, posStr(fx.dpos), posStr(fx.kpos), sd[1]))
+				emitc(fmt.Sprintf("ds verify enforce %d 64 %s %s %s %d 7", fx.kpos+2, a, posStr(fx.dpos), posStr(fx.kpos), sd[1]))
 			}
 		}
 	}
